@@ -32,6 +32,12 @@ void inst(rgb8_view_t const& a, rgb8_view_t const& b, gray16_view_t const& c, gr
   matrix3x2<double> i = inverse(m); point<double> q = p * i; q = transform(m, q); (void)q;
 }
 // signed destination channels: the accumulator can be negative
+// packed and bit-aligned channels are integral too (their value type is a class: std::numeric_limits knows nothing about it)
+typedef packed_image3_type<std::uint16_t, 5, 6, 5, rgb_layout_t>::type p565_img; typedef bit_aligned_image3_type<5, 7, 6, bgr_layout_t>::type b576_img;
+void inst_packed(p565_img::const_view_t const& a, b576_img::const_view_t const& b){
+  p565_img::value_type r; b576_img::value_type g; point<double> p(1.5, 2.5);
+  sample(bilinear_sampler(), a, p, r); sample(bilinear_sampler(), b, p, g);
+}
 void inst_signed(gray8s_view_t const& a, rgb16s_view_t const& b){
   gray8s_pixel_t r; rgb16s_pixel_t g; point<double> p(1.5, 2.5);
   sample(bilinear_sampler(), a, p, r); sample(bilinear_sampler(), b, p, g);
@@ -53,7 +59,6 @@ def run(rep):
     rep.units.append("c17_driver.cpp: %d instantiated functions" % len(fns))
     rep.trusted += ["clang front end (instantiated AST)", "harness/ast/rules.py (guards, polynomial normaliser, difference-bound prover)",
                     "ifloor(p) <= p < ifloor(p)+1 so frac lies in [0,1) (utilities.hpp, not analysed)"]
-    rep.assumptions += ["the source view is non-empty (width >= 1, height >= 1)"]
     bilinear(rep, fns)
     narrowing(rep, fns)
     nearest(rep, fns)
@@ -76,7 +81,8 @@ def narrowing(rep, fns):
     for f in ops:
         st, dt = f["params"][0]["type"], f["params"][1]["type"]
         fp = re.search(r"\b(double|float|long double)\b", st) is not None
-        integral = re.search(r"\b(unsigned char|signed char|char|unsigned short|short|unsigned int|int|unsigned long|long)\b", dt) is not None and "float" not in dt
+        packed = re.search(r"packed_(dynamic_)?channel_(reference|value)<", dt) is not None
+        integral = packed or (re.search(r"\b(unsigned char|signed char|char|unsigned short|short|unsigned int|int|unsigned long|long)\b", dt) is not None and "float" not in dt)
         if not (fp and integral) or (st, dt) in seen:
             continue
         seen.add((st, dt))
@@ -94,6 +100,9 @@ def narrowing(rep, fns):
             n = R.strip(rhs)
             while isinstance(n, dict) and n.get("k") in ("Construct", "FunctionalCast", "Temporary") and len(n.get("args", [])) == 1:
                 n = R.strip(n["args"][0])
+            # the value type of a packed channel is a class: its conversion operator to the underlying integer follows the helper call
+            if isinstance(n, dict) and n.get("k") == "Call" and re.search(r"::operator [\w ]+$", n["callee"].get("name", "")) and not n.get("args") and isinstance(n.get("obj"), dict):
+                n = R.strip(n["obj"])
             if isinstance(n, dict) and n.get("k") == "Call" and n["callee"].get("id") in by_id and n["callee"]["name"].startswith("boost::gil::cast_channel_fn::"):
                 h = R.canonize(by_id[n["callee"]["id"]])
                 rets = [x for x, _ in R.find(h["body"], lambda x: x.get("k") == "Return")]
@@ -104,9 +113,12 @@ def narrowing(rep, fns):
                 break
             expr = R.key(n).replace("$0", "SRC")
             break
+        mcl = re.fullmatch(r"\w+\{(.*)\}", expr or "")       # DstValue(x) for a class value type (packed_channel_value): the integer conversion happens in its constructor
+        if mcl:
+            expr = mcl.group(1)
         ROUND = (r"\(\(SRC < 0(\.0)?\) \? \(SRC - 0\.5\) : \(SRC \+ 0\.5\)\)", r"l?l?round\(SRC\)", r"(nearbyint|rint)\(SRC\)", r"floor\(\(SRC \+ 0\.5\)\)")
         HALF_UP = r"\(SRC \+ 0\.5\)"          # followed by the truncating conversion: nearest only for SRC >= 0
-        signed_dst = re.search(r"\bunsigned\b", dt) is None
+        signed_dst = re.search(r"\bunsigned\b", dt) is None and not packed
         if expr is not None and any(re.fullmatch(p_, expr) for p_ in ROUND):
             rep.ok("B4-narrowing", key, expr)
         elif expr is not None and re.fullmatch(HALF_UP, expr) and not signed_dst:
@@ -117,7 +129,11 @@ def narrowing(rep, fns):
         elif expr == "SRC":
             # witness from the weights B1 establishes: two taps with weights (1-f) and f on a constant image
             wit = None
-            for v in (255.0, 65535.0, 1.0, 100.0):
+            mbits = re.search(r"packed_(?:dynamic_)?channel_reference<[^,]+, (?:\d+, )?(\d+), (?:true|false)>|packed_channel_value<(\d+)>", dt)
+            vals = ((float(2 ** int(mbits.group(1) or mbits.group(2)) - 1),) if mbits else ()) + (255.0, 65535.0, 1.0, 100.0)
+            if mbits:
+                vals = tuple(v for v in vals if v <= vals[0])
+            for v in vals:
                 for den in range(2, 40):
                     for num in range(1, den):
                         fr = num / den
@@ -206,6 +222,10 @@ def bilinear(rep, fns):
                             nxt.append((dx_ + step, dy_, rd, cd))
                     elif k == "Call" and s.get("op") == "()" and "add_dst_mul_src" in R.key(s["args"][0]):
                         ref = R.key(s["args"][1])
+                        # a reference proxy converted to the view's value type: packed_pixel{ref,nullptr} / pixel{ref,nullptr}
+                        mw = re.fullmatch(r"\w+\{(.*),nullptr\}", ref)
+                        if mw:
+                            ref = mw.group(1)
                         off = ref_offset(ref, loc)
                         if off is None:
                             raise C.AnalysisBroken("%s: source reference %s not understood" % (tag, ref))
@@ -238,7 +258,7 @@ def bilinear(rep, fns):
             for c, pos in conds:
                 atoms_ += R.split_conj(c, pos)
             facts = R.linear_constraints(atoms_, ren)
-            facts += [(Poly.const(1) - Poly.atom("W"), "<="), (Poly.const(1) - Poly.atom("H"), "<=")]
+            # no assumption on the size of the source: an empty view (subimage of width 0, default image) has to be refused by the function itself
             desc = " && ".join(("" if pos else "!") + ren(R.key(c)) for c, pos in conds)
             total = Poly()
             okw = True
